@@ -41,6 +41,7 @@ type act struct {
 	Val    string `json:"val"`
 	Pre    bool   `json:"pre"`
 	Target string `json:"target"`
+	Bad    bool   `json:"bad"`
 }
 
 type schedStep struct {
@@ -183,7 +184,7 @@ func runSched(in schedInput) map[string]any {
 				}
 				lo := &liveOp{cancel: cancel, meth: a.Meth, nb: a.NB, acc: &accum{}}
 				items := []string{a.Val + "x", a.Val + "y"}
-				rec.Log(rt.Event{"ev": "call", "id": a.ID, "op": "start", "k": a.K, "meth": a.Meth, "nb": a.NB, "val": a.Val, "pre": a.Pre, "target": ""})
+				rec.Log(rt.Event{"ev": "call", "id": a.ID, "op": "start", "k": a.K, "meth": a.Meth, "nb": a.NB, "val": a.Val, "pre": a.Pre, "target": "", "bad": a.Bad})
 				lo.op = rt.Start(k, func() any {
 					r := w.do(ctx, a.Meth, a.NB, a.Val, items, lo.acc)
 					rec.Log(rt.Event{"ev": "ret", "id": a.ID, "res": r})
@@ -191,7 +192,7 @@ func runSched(in schedInput) map[string]any {
 				})
 				ops[a.ID] = lo
 			case "cancel":
-				rec.Log(rt.Event{"ev": "call", "id": a.ID, "op": "cancel", "k": "", "meth": "", "nb": false, "val": "", "pre": false, "target": a.Target})
+				rec.Log(rt.Event{"ev": "call", "id": a.ID, "op": "cancel", "k": "", "meth": "", "nb": false, "val": "", "pre": false, "target": a.Target, "bad": false})
 				if a.Target == "it" {
 					w.itStop()
 				} else if o, ok := ops[a.Target]; ok {
@@ -199,7 +200,7 @@ func runSched(in schedInput) map[string]any {
 				}
 				rec.Log(rt.Event{"ev": "ret", "id": a.ID, "res": "done"})
 			case "close", "iclose":
-				rec.Log(rt.Event{"ev": "call", "id": a.ID, "op": a.Op, "k": "", "meth": "", "nb": false, "val": "", "pre": false, "target": ""})
+				rec.Log(rt.Event{"ev": "call", "id": a.ID, "op": a.Op, "k": "", "meth": "", "nb": false, "val": "", "pre": false, "target": "", "bad": false})
 				r := func() (res string) {
 					defer func() {
 						if p := recover(); p != nil {
